@@ -359,7 +359,7 @@ class Agg:
                        "classes": (res or {}).get("classes", f.get("classes", []))}
             res["mode"] = w["mode"]
             # a witness borrowed from another property is judged by the symptom it shows in its own mode
-            fm = dict(f, symptom=w["symptom"], mode=w["mode"]) if "symptom" in w else f
+            fm = dict(f, symptom=w["symptom"], mode=w["mode"], classes=w.get("classes", f.get("classes", []))) if "symptom" in w else f
             if finding_matches(fm, res):
                 self.known_hits[f["id"]] = self.known_hits.get(f["id"], 0) + 1
                 self.print_known(f)
